@@ -46,6 +46,8 @@ var configs = map[string]Config{
 	"c-race-noaes":    {Name: "c-race-noaes", Env: []string{"GODEBUG=cpu.aes=off"}, Variant: "race"},
 	"c-race-noavx2":   {Name: "c-race-noavx2", Env: []string{"GODEBUG=cpu.avx2=off"}, Variant: "race"},
 	"c-race-aesni1":   {Name: "c-race-aesni1", Env: []string{"FORCE_SM4BLOCK_AESNI=1"}, Variant: "race"},
+	// race-detector build of the pure-Go code paths: there every store is visible to the detector (assembly is not instrumented)
+	"c-race-purego": {Name: "c-race-purego", Variant: "racepurego"},
 }
 
 // AllTiers lists every dispatch configuration reachable on this host, in a fixed order.
@@ -381,7 +383,7 @@ func runWorker(p Property, cfg Config, tier string, shard, nshards int, deadline
 		cmd := exec.Command(binFor(cfg.Variant), args...)
 		cmd.Env = append(os.Environ(), cfg.Env...)
 		cmd.Env = append(cmd.Env, "GOTRACEBACK=all")
-		if cfg.Variant != "race" {
+		if !strings.HasPrefix(cfg.Variant, "race") {
 			cmd.Env = append(cmd.Env, "GOMAXPROCS=2")
 		} else {
 			// controlled scheduler: one OS thread; race reports go to a per-process log the worker inspects after every execution
